@@ -90,7 +90,12 @@ class FutureReplacementCheck(BaseCheck):
             cut = unit * st.randint(1, kmax, 'k')
         specB = copy.deepcopy(specA)
         if cut is not None:
-            specB['tails'] = [{'cut': cut, 'id': 1 + st.randint(0, 1000, 'tid'), 'shift': st.choice([0, 0, 3, -3, 15, -15], 'shift')}]
+            shift = st.choice([0, 0, 3, -3, 15, -15], 'shift')
+            if pf.get('big_gap'):
+                k0 = max(cp['k0'] for cp in specA['symbols'].values())
+                shift = int(k0 * st.choice([0.006, 0.012, 0.03, 0.08], 'gap')) * st.choice([1, -1], 'gapsign')
+                specA['tails'] = [{'cut': cut, 'id': 0, 'shift': -shift if st.chance(0.5, 'agap') else 0}]
+            specB['tails'] = [{'cut': cut, 'id': 1 + st.randint(0, 1000, 'tid'), 'shift': shift}]
             tail_len = st.choice([1, 2, 5, n - cut, n - cut, st.randint(1, 300, 'tl')], 'tlen')
             specB['minutes'] = cut + max(1, tail_len)
             # other regime in the tail: change volatility parameters via another block size
